@@ -2,6 +2,7 @@ package vc
 
 import (
 	"go/types"
+	"strings"
 
 	"golang.org/x/tools/go/ssa"
 )
@@ -52,6 +53,9 @@ func (x *Exec) mapLookup(s *State, f *Frame, in *ssa.Lookup) Value {
 			return TupleVal{av, S(has)}
 		}
 		return av
+	}
+	if x.MapValuesNonNil != nil && x.MapValuesNonNil(in.X.Type()) && vs == SInt {
+		s.Assume(Implies(has, Neq(val, IntLit(0))))
 	}
 	if in.CommaOk {
 		return TupleVal{s.unreify(v, mt.Elem()), S(has)}
@@ -134,4 +138,30 @@ func (x *Exec) rangeNext(s *State, f *Frame, in *ssa.Next) Value {
 		kv = s.freshValue("next.k", mt.Key())
 	}
 	return TupleVal{S(ok), kv, vv}
+}
+
+// RegisterMapSpecFuncs adds mapHas(m, k) / mapVal(m, k) for maps of the given type.
+func (x *Exec) RegisterMapSpecFuncs() {
+	x.SpecFuncs["mapHas"] = func(e *Env, a []Value) Value {
+		m := e.toTerm(a[0])
+		k := e.toTerm(a[1])
+		for name, comp := range e.S.Heap {
+			if strings.HasPrefix(name, "map.") && strings.HasSuffix(name, "@has") && IdxSort(ElemSort(comp.Sort)) == k.Sort {
+				return S(Select(Select(comp, m), k))
+			}
+		}
+		evalErr("mapHas: no map component with key sort %s", k.Sort)
+		return nil
+	}
+	x.SpecFuncs["mapVal"] = func(e *Env, a []Value) Value {
+		m := e.toTerm(a[0])
+		k := e.toTerm(a[1])
+		for name, comp := range e.S.Heap {
+			if strings.HasPrefix(name, "map.") && strings.HasSuffix(name, "@val") && IdxSort(ElemSort(comp.Sort)) == k.Sort {
+				return S(Select(Select(comp, m), k))
+			}
+		}
+		evalErr("mapVal: no map component with key sort %s", k.Sort)
+		return nil
+	}
 }
